@@ -39,6 +39,11 @@ func init() {
 
 var c15K, c15OP, c15RAND [16]byte
 
+var c15Prev struct {
+	k, op, rnd [16]byte
+	set        bool
+}
+
 func sqnLess(a, b []byte) bool { return bytes.Compare(a, b) < 0 }
 
 // c15Anchored: the TS 35.208 test set recorded in the repository (the second file the property is anchored in) is one more
@@ -107,6 +112,21 @@ func runC15(c *fw.Case) (o fw.Outcome) {
 	if c.Idx%3 == 0 { // and sometimes fresh slices
 		k, op, rnd = append([]byte(nil), k...), append([]byte(nil), op...), append([]byte(nil), rnd...)
 	}
+	if c.Idx%3 == 2 && c15Prev.set { // resembles the previous case: a subset of (K, OP, RAND) carried over, perhaps one bit away
+		for i, f := range [][]byte{k, op, rnd} {
+			if r.Intn(2) == 0 {
+				copy(f, [][]byte{c15Prev.k[:], c15Prev.op[:], c15Prev.rnd[:]}[i])
+				if r.Intn(3) == 0 {
+					f[r.Intn(16)] ^= 1 << uint(r.Intn(8))
+				}
+			}
+		}
+		o.Tag("resembles-previous-case")
+	}
+	copy(c15Prev.k[:], k)
+	copy(c15Prev.op[:], op)
+	copy(c15Prev.rnd[:], rnd)
+	c15Prev.set = true
 	amf := rbytes(r, 2)
 	sqnNet := rbytes(r, 6)
 	sqnUE := append([]byte(nil), sqnNet...)
